@@ -204,6 +204,30 @@ pub fn run_codec(seed: u64, count: usize, out: &mut Vec<Value>) {
                     let (rr, _) = res_of(catch(AssertUnwindSafe(|| deserialize_witness(&m))));
                     muts.push(json!([tag, rr]));
                 }
+                // the two length prefixes disagree with each other or with what follows (same total length, or
+                // one announced byte more / 2^64-1 bytes): "missing or trailing bytes" in another guise
+                {
+                    let np = path.len();
+                    let off_p = 96usize;
+                    let off_i = 96 + 8 + 32 * np;
+                    let setlen = |m: &mut Vec<u8>, off: usize, v: u64| m[off..off + 8].copy_from_slice(&v.to_le_bytes());
+                    let mut cases: Vec<(&str, Vec<u8>)> = Vec::new();
+                    for (tag, off, v) in [("idxlen-1", off_i, (np as u64).saturating_sub(1)), ("idxlen+1", off_i, np as u64 + 1), ("idxlen+100", off_i, np as u64 + 100),
+                                          ("idxlen_max", off_i, u64::MAX), ("pathlen-1", off_p, (np as u64).saturating_sub(1)), ("pathlen+1", off_p, np as u64 + 1),
+                                          ("pathlen_max", off_p, u64::MAX)] {
+                        if np == 0 && tag.ends_with("-1") {
+                            continue;
+                        }
+                        let mut m = mine.clone();
+                        setlen(&mut m, off, v);
+                        cases.push((tag, m));
+                    }
+                    // one direction byte fewer announced, the spare byte moved behind the encoding's end is still there
+                    for (tag, m) in cases {
+                        let (rr, _) = res_of(catch(AssertUnwindSafe(|| deserialize_witness(&m))));
+                        muts.push(json!([tag, rr]));
+                    }
+                }
                 ev["mutated"] = json!(muts);
                 ev["mine"] = json!(mine);
                 out.push(ev);
